@@ -78,6 +78,23 @@ func classifyWriterIn(p *an.Prog, root, in *an.Fn, e ast.Expr, depth int) string
 	case "escapeeWriter.Writer":
 		return wRAW
 	}
+	// a member of a local struct that carries a saved writer (frame := tryFrame{writer: st.Writer, …}; frame.writer),
+	// seen directly or through the parameter of the helper the struct was handed to
+	if obj, k, ok := structMember(p, f, e); ok && depth < 8 {
+		if lit := savedStructLit(p, f, obj); lit != nil {
+			for _, el := range lit.Elts {
+				if kv, ok := el.(*ast.KeyValueExpr); ok {
+					if kid, ok := kv.Key.(*ast.Ident); ok && kid.Name == k {
+						owner := f
+						if o := p.OwnerFn(kv.Value.Pos()); o != nil {
+							owner = o
+						}
+						return classifyWriterIn(p, owner.Root(), owner, kv.Value, depth+1)
+					}
+				}
+			}
+		}
+	}
 	if id, ok := e.(*ast.Ident); ok {
 		o := an.ObjOf(info, id)
 		if o == nil {
